@@ -40,7 +40,8 @@ ASSUMPTIONS = ["process-based kind: parent and spawned child are simulated proce
                "cancellation is injected into the group task only (as SyncGroup users do)"]
 
 
-def simulate(kind, values, cancel_step=None, cancel_time=None, silent=False):
+def simulate(kind, values, cancel_step=None, cancel_time=None, silent=False,
+             timeout_cancel=None):
     """one simulation of one configuration; returns a dict of observations
 
     silent: at the moment of the cancellation a terminal the group only reads (if there
@@ -98,7 +99,34 @@ def simulate(kind, values, cancel_step=None, cancel_time=None, silent=False):
 
         def update_devices(data):
             obs["cycles"] += 1
-            if obs["cycles"] == 3 and cancel_step is None and cancel_time is None:
+            if timeout_cancel is not None and obs["cycles"] == timeout_cancel[0]:
+                # from now on the frames are lost, and the cancellation arrives in the very
+                # loop iteration in which the wait for the response times out (just before
+                # or just after the timer, as drawn); then the bus works again
+                bus.delay_for = lambda no, frame: 1e7
+                world.count("fault/frames-lost-from-a-cycle-on")
+
+                def arm():
+                    pend = [h for h in loop._scheduled if not h._cancelled
+                            and 0.005 < h._when - loop.time() <= 0.0201]
+                    if not pend:
+                        obs["cancel_injected_at"] = loop.time() - t0
+                        bus.delay_for = None
+                        task.cancel()
+                        return
+                    when = min(h._when for h in pend)
+                    obs["cancel_with_timer_at"] = when - t0
+                    world.count("c24/cancel-in-the-iteration-of-a-timeout")
+
+                    def cancel_now():
+                        obs["cancel_injected_at"] = loop.time() - t0
+                        obs["started"] = True
+                        bus.delay_for = None      # (the clean-up gets its answers)
+                        task.cancel()
+                    loop.call_at(when + (-2e-10 if timeout_cancel[1] else 2e-10), cancel_now)
+                loop.call_later(0.0125, arm)    # (past the 10 ms pacing sleep of the cycle)
+            if obs["cycles"] == 3 and cancel_step is None and cancel_time is None \
+                    and timeout_cancel is None:
                 obs["ref_steps"] = obs["steps"]
                 obs["ref_time"] = loop.time() - t0
                 loop.call_soon(task.cancel)
@@ -398,6 +426,23 @@ def run(tape, scenario):
             nontrivial += bool(obs.get("started"))
             r = judge(kind, obs, f"cancel at t={t * 1e3:.3f} ms")
             if r is not None:
+                violations.append({"rule": r[0], "params": r[2], "detail": r[1]})
+                break
+    if not violations and kind != "process" and ref.get("ref_time"):
+        # cancellation in the same loop iteration as the time-out of a lost cyclic frame
+        for j in range(3):
+            cyc = 1 + tape.draw("c24/lost-from-cycle", 3)
+            before = bool(tape.draw("c24/cancel-before-the-timer", 2))
+            obs = sim(kind, values, timeout_cancel=(cyc, before))
+            stats["c24/simulations"] += 1
+            stats["c24/cancels-with-a-timeout"] = stats.get("c24/cancels-with-a-timeout", 0) \
+                + ("cancel_with_timer_at" in obs)
+            sim_time += obs["sim_time"]
+            nontrivial += bool(obs.get("started"))
+            r = judge(kind, obs, f"all frames lost from cycle {cyc} on, cancel just "
+                                 f"{'before' if before else 'after'} the time-out fires")
+            if r is not None:
+                r[2]["with_timeout"] = True
                 violations.append({"rule": r[0], "params": r[2], "detail": r[1]})
                 break
     stats["c24/cancelled-simulations"] = stats["c24/simulations"] - 1
